@@ -120,11 +120,14 @@ def run():
             outs = ["out:<raises>"]
         elif not b["end"].startswith("val:") or len(outs) != 1:
             continue                        # B is missing / aborts otherwise: outside the property
-        obs = []
+        obs, unfinished = [], False
         for name in names:
             rid = keys[[k for k, (v2, n2) in enumerate(index) if v2 == vi and n2 == name][0]]
             o = res[rid]["observed"]
+            unfinished = unfinished or o["end"].startswith(("discarded:", "fuel:"))
             obs.append(decide(name, o["ev"], o["end"]))
+        if unfinished:
+            continue                        # a construct run that the worker gave up on (deadline): the row would be incomplete
         rows.append({"id": txt, "b": "T" if outs[0] == "out:true" else "F", "obs": obs})
     t = run_tlc("PanTruth", files={"c12.ndjson": ndjson(rows)}, workers=4)
     ck.add_tlc(t, "PanTruth Agree")
